@@ -17,15 +17,17 @@ Definition C37_configs : list config := all_configs gen_tables.
 (* what it means to be in the set: a registered policy, a mode the policy has a security level for, a CLIENT key and a
    SERVER key of 1024/2048/3072/4096 bits (chosen independently) that the policy's asymmetric constructor accepts on
    both ends (no keys for mode None), and a token type (anonymous / user name) the selected endpoint advertises *)
-Theorem C37_configs_spec : forall c, In c C37_configs <->
-  In (c_pol c) supported_policies /\ In (c_mode c) [1; 2; 3] /\ 0 < level_of security_levels (c_pol c) (c_mode c) /\
-  In (c_kb c, c_skb c) (key_pairs gen_tables (c_pol c) (c_mode c)) /\ token_advertised gen_tables c = true.
+Theorem C37_configs_spec : forall c, In c C37_configs <-> std_config gen_tables c \/ none_cell gen_tables c.
 Proof. intro c. exact (in_all_configs gen_tables c). Qed.
+(* std_config: the client selects the endpoint of the pair under test (the server enables None/None + that pair);
+   none_cell: the client, without a certificate, selects the None/None endpoint of a server that also enables a secured
+   pair and holds a key within that policy's limits - the endpoint still advertises the pair's user-name token policy,
+   whose password is encrypted for the certificate of the CreateSessionResponse *)
 
-(* the finite bound: 141 configurations (2 old policies x 2 modes x 2x2 client/server key sizes x 2 tokens, 3 SHA-256
+(* the finite bound: 193 configurations = 52 None/None-endpoint cells (secured pair x server key size x token) + 141 (2 old policies x 2 modes x 2x2 client/server key sizes x 2 tokens, 3 SHA-256
    policies x 2 modes x 3x3 key sizes x 2 tokens, None x anonymous; a server enabling only None does not advertise a
    user-name token) *)
-Theorem C37_bound : List.length C37_configs = 141%nat.
+Theorem C37_bound : List.length C37_configs = 193%nat.
 Proof. vm_compute. reflexivity. Qed.
 
 (* the key sizes the constructors accept are exactly the Part 7 limits of each profile, the channel nonce each
@@ -50,11 +52,22 @@ Proof. exact (proj1 (forallb_forall _ _) C37_all). Qed.
 Theorem C37_statement : forall pol mode ckb skb t,
   In pol supported_policies -> In mode [1; 2; 3] -> 0 < level_of security_levels pol mode ->
   In (ckb, skb) (key_pairs gen_tables pol mode) ->
-  token_advertised gen_tables {| c_pol := pol; c_mode := mode; c_kb := ckb; c_skb := skb; c_tok := t |} = true ->
-  connect_ok gen_tables {| c_pol := pol; c_mode := mode; c_kb := ckb; c_skb := skb; c_tok := t |} = true.
+  token_advertised gen_tables {| c_pol := pol; c_mode := mode; c_kb := ckb; c_skb := skb; c_tok := t; c_extra := [] |} = true ->
+  connect_ok gen_tables {| c_pol := pol; c_mode := mode; c_kb := ckb; c_skb := skb; c_tok := t; c_extra := [] |} = true.
 Proof.
-  intros pol mode ckb skb t Hp Hm Hl Hk Ha. apply C37_every_config. apply C37_configs_spec.
-  cbn [c_pol c_mode c_kb c_skb c_tok]. auto.
+  intros pol mode ckb skb t Hp Hm Hl Hk Ha. apply C37_every_config. apply C37_configs_spec. left.
+  unfold std_config. cbn [c_pol c_mode c_kb c_skb c_tok c_extra]. auto 10.
+Qed.
+
+(* the None/None endpoint of a server that also enables a secured pair: both advertised token types work *)
+Theorem C37_statement_none_endpoint : forall xpol xm skb t,
+  In xpol supported_policies -> String.eqb xpol "None" = false -> In xm [1; 2; 3] -> 0 < level_of security_levels xpol xm ->
+  In skb key_sizes -> asym_accept (t_rows gen_tables) xpol 0 skb = true ->
+  let c := {| c_pol := "None"; c_mode := 1; c_kb := 0; c_skb := skb; c_tok := t; c_extra := [{| sc_pol := xpol; sc_mode := xm |}] |} in
+  token_advertised gen_tables c = true -> connect_ok gen_tables c = true.
+Proof.
+  intros xpol xm skb t Hp Hn Hm Hl Hs Hacc c Ha. apply C37_every_config. apply C37_configs_spec. right.
+  exists xpol, xm. unfold c. cbn [c_pol c_mode c_kb c_skb c_tok c_extra]. auto 14.
 Qed.
 
 (* the OpenSecureChannel chunk survives every combination of sender and receiver key size (real signAndEncrypt and
@@ -79,18 +92,18 @@ Proof. intros pairs ep H. apply (anon_resolvable (t_levels gen_tables) pairs ep)
    the password cannot be encrypted, on the Basic256Sha256 endpoint too) are all rejected by the model *)
 Example C37_nonvacuous :
   In (512, 256) (key_pairs gen_tables "Basic256Sha256" 3) /\ In (128, 256) (key_pairs gen_tables "Basic128Rsa15" 2) /\
-  token_advertised gen_tables {| c_pol := "Basic256Sha256"; c_mode := 3; c_kb := 512; c_skb := 256; c_tok := TUser |} = true /\
-  connect_ok gen_tables {| c_pol := "Basic256Sha256"; c_mode := 3; c_kb := 128; c_skb := 256; c_tok := TAnon |} = false /\
-  connect_ok gen_tables {| c_pol := "Basic128Rsa15"; c_mode := 2; c_kb := 256; c_skb := 512; c_tok := TAnon |} = false /\
-  connect_ok gen_tables {| c_pol := "Basic256"; c_mode := 1; c_kb := 256; c_skb := 256; c_tok := TAnon |} = false.
+  token_advertised gen_tables {| c_pol := "Basic256Sha256"; c_mode := 3; c_kb := 512; c_skb := 256; c_tok := TUser; c_extra := [] |} = true /\
+  connect_ok gen_tables {| c_pol := "Basic256Sha256"; c_mode := 3; c_kb := 128; c_skb := 256; c_tok := TAnon; c_extra := [] |} = false /\
+  connect_ok gen_tables {| c_pol := "Basic128Rsa15"; c_mode := 2; c_kb := 256; c_skb := 512; c_tok := TAnon; c_extra := [] |} = false /\
+  connect_ok gen_tables {| c_pol := "Basic256"; c_mode := 1; c_kb := 256; c_skb := 256; c_tok := TAnon; c_extra := [] |} = false.
 Proof. vm_compute. repeat split; auto 20. Qed.
 
 Example C37_mixed_server_edge :
   let pairs := [ {| sc_pol := "None"; sc_mode := 1 |}; {| sc_pol := "Basic128Rsa15"; sc_mode := 2 |};
                  {| sc_pol := "Basic256Sha256"; sc_mode := 2 |} ] in
-  connect_ok_on gen_tables pairs {| c_pol := "Basic256Sha256"; c_mode := 2; c_kb := 512; c_skb := 512; c_tok := TUser |} = false /\
-  connect_ok_on gen_tables pairs {| c_pol := "Basic256Sha256"; c_mode := 2; c_kb := 512; c_skb := 512; c_tok := TAnon |} = true /\
-  connect_ok_on gen_tables pairs {| c_pol := "Basic256Sha256"; c_mode := 2; c_kb := 256; c_skb := 256; c_tok := TUser |} = true.
+  connect_ok_on gen_tables pairs {| c_pol := "Basic256Sha256"; c_mode := 2; c_kb := 512; c_skb := 512; c_tok := TUser; c_extra := [] |} = false /\
+  connect_ok_on gen_tables pairs {| c_pol := "Basic256Sha256"; c_mode := 2; c_kb := 512; c_skb := 512; c_tok := TAnon; c_extra := [] |} = true /\
+  connect_ok_on gen_tables pairs {| c_pol := "Basic256Sha256"; c_mode := 2; c_kb := 256; c_skb := 256; c_tok := TUser; c_extra := [] |} = true.
 Proof. vm_compute. auto. Qed.
 
 Print Assumptions C37_configs_spec.
@@ -99,6 +112,7 @@ Print Assumptions C37_limits_match_part7.
 Print Assumptions C37_all.
 Print Assumptions C37_every_config.
 Print Assumptions C37_statement.
+Print Assumptions C37_statement_none_endpoint.
 Print Assumptions C37_opn_chunk_all_key_size_pairs.
 Print Assumptions C37_enabled_pair_is_advertised.
 Print Assumptions C37_anonymous_always_resolvable.
